@@ -74,7 +74,7 @@ def _translate_chunk(chunk, metatypes, deadline):
         p = subprocess.run(args, input=data, stdout=subprocess.PIPE, stderr=subprocess.PIPE, text=True)
         n = 0
         hung = None
-        for line in p.stdout.splitlines():
+        for line in p.stdout.split("\n"):      # not splitlines(): U+2028, U+0085, FF... may occur inside strings
             if not line.strip():
                 continue
             d = json.loads(line)
